@@ -14,7 +14,7 @@ import functools
 import collections
 import numpy as np
 import schedula as sh
-from decimal import Decimal, ROUND_HALF_UP
+from decimal import Decimal, ROUND_HALF_UP, ROUND_DOWN, ROUND_UP, localcontext
 from . import (
     get_error, raise_errors, is_number, flatten, wrap_ufunc, wrap_func,
     replace_empty, Error, xfilter, wrap_impure_func, COMPILING, to_number,
@@ -357,15 +357,24 @@ def round_up(x):
     return float(Decimal(x).quantize(0, rounding=ROUND_HALF_UP))
 
 
-def xround(x, d, func=round_up):
-    d = 10 ** int(d)
-    v = func(abs(x * d)) / d
-    return -v if x < 0 else v
+def xround(x, d, func=ROUND_HALF_UP):
+    d = int(d)
+    if d > 330:  # Nothing left to round.
+        return x
+    if d < -330:
+        d = -330
+    with localcontext() as ctx:
+        ctx.prec = 800
+        # Shortest decimal representation: 1.15 is 1.15, not 1.149999...
+        v = Decimal(repr(float(x))).quantize(
+            Decimal(1).scaleb(-d), rounding=func
+        )
+    return float(v)
 
 
 FUNCTIONS['ROUND'] = wrap_ufunc(xround)
-FUNCTIONS['ROUNDDOWN'] = wrap_ufunc(functools.partial(xround, func=math.floor))
-FUNCTIONS['ROUNDUP'] = wrap_ufunc(functools.partial(xround, func=math.ceil))
+FUNCTIONS['ROUNDDOWN'] = wrap_ufunc(functools.partial(xround, func=ROUND_DOWN))
+FUNCTIONS['ROUNDUP'] = wrap_ufunc(functools.partial(xround, func=ROUND_UP))
 FUNCTIONS['SEC'] = FUNCTIONS['_XLFN.SEC'] = wrap_ufunc(
     functools.partial(xcot, func=np.cos)
 )
@@ -426,7 +435,7 @@ FUNCTIONS['TAN'] = wrap_ufunc(np.tan)
 FUNCTIONS['TANH'] = wrap_ufunc(np.tanh)
 
 
-def xtrunc(x, d=0, func=math.trunc):
+def xtrunc(x, d=0, func=ROUND_DOWN):
     return xround(x, d=d, func=func)
 
 
